@@ -117,7 +117,9 @@ class ResolverMixin:  # pylint: disable=too-few-public-methods
                             q_decl.type))
 
             # Test for valid scope for this object type ot qualdecl ANY
-            if not q_decl.scopes[scope] and not q_decl.scopes['ANY']:
+            # A scope that is missing in the scopes dictionary is not set
+            if not q_decl.scopes.get(scope, False) and \
+                    not q_decl.scopes.get('ANY', False):
                 raise CIMError(
                     CIM_ERR_INVALID_PARAMETER,
                     _format("Qualifier {0!A} in new class {1!A} is used in "
